@@ -39,7 +39,8 @@ def build(case, d):
 
 
 def run_case(case):
-    pre = f"C11|b={case['b']}|o={case['o']}|t={case['t']}|mol={case['mol']}|outliers={case['outliers']}|cart={case['cart']}"
+    pre = f"C11|b={case['b']}|o={case['o']}|t={case['t']}|mol={case['mol']}|outliers={case['outliers']}|cart={case['cart']}" + \
+          (f"|shift={case['shift']}" if case.get("shift") else "")
     d = tempfile.mkdtemp(prefix="verif_c11_")
     vs = []
     try:
@@ -93,7 +94,10 @@ def run_case(case):
                         want = (t * n_o + int(os_[0])) * n_b + int(bs[0])
                     frames.append(np.concatenate([ref1, body + dist * u]))
                     truth.append(want)
-        frames = np.array(frames, dtype=np.float32)
+        frames = np.array(frames, dtype=np.float64)
+        if case.get("shift"):      # the whole system rigidly translated: relative placement (and so the cell) is unchanged
+            frames = frames + np.array(case["shift"], dtype=float)
+        frames = frames.astype(np.float32)
         truth = np.array(truth, dtype=float)
         merged = Merge(u1.atoms, u2.atoms)
         U = Universe(merged._topology, frames, format=MemoryReader)
@@ -147,6 +151,9 @@ def cases(tier):
                 i += 1
                 out.append({"b": b, "o": o, "t": t, "mol": mol, "outliers": outliers, "cart": cart, "n_rot": n_rot,
                             "n_dir": n_dir})
+                if mol == "CHFClBr" and not outliers:
+                    out.append({"b": b, "o": o, "t": t, "mol": mol, "outliers": outliers, "cart": not cart, "n_rot": 6,
+                                "n_dir": 5, "shift": [3.0, -2.0, 5.0]})
         for mol in mols[:2] if tier == "quick" else mols[:3]:
             out.append({"b": b, "o": o, "t": t, "mol": mol, "outliers": False, "cart": True, "roundtrip": True,
                         "n_rot": 0, "n_dir": 0})
